@@ -344,10 +344,10 @@ def unmodelled_calls(R, name, rng, info=None):
             return out          # a series built from one instant has no positive duration: outside C04's hypothesis on starting objects (zero-span quirk, DESIGN 10.4)
         for u, f in (("s", 1.0), ("ms", 1e3), ("us", 1e6)):
             add("ctor_default_support_Ts_" + u, lambda u=u, f=f: nap.Ts(tx * f, time_units=u))
-            add("ctor_default_support_Tsd_" + u, lambda u=u, f=f: nap.Tsd(tx * f, dx, time_units=u))
+            add("ctor_default_support_Tsd_" + u, lambda u=u, f=f: nap.Tsd(tx * f, dx.copy(), time_units=u))      # (a fresh data array per object: the constructors keep the caller's array)
         add("ctor_default_support_TsdFrame_ms", lambda: nap.TsdFrame(tx * 1e3, np.stack([dx, dx * 2], 1), time_units="ms"))
         add("ctor_default_support_TsdTensor_us", lambda: nap.TsdTensor(tx * 1e6, np.stack([dx, dx * 2], 1).reshape(len(tx), 2, 1), time_units="us"))
-        add("ctor_from_TsIndex", lambda: nap.Tsd(x.index, dx, time_support=x.time_support))
+        add("ctor_from_TsIndex", lambda: nap.Tsd(x.index, dx.copy(), time_support=x.time_support))
         add("ctor_from_list", lambda: nap.Ts([float(v) for v in tx]))
         return out
     if name == "core_any_class":
